@@ -9,15 +9,24 @@ import time
 from pathlib import Path
 
 VERIF = Path(__file__).resolve().parent.parent
-CLI_TARGET = VERIF / "harness" / "target" / "cli"
+# VERIF_COV_DIR (set by tools/coverage.sh only): build the binary with coverage instrumentation into that scratch
+# directory and let every run of it leave a profile there - a supporting measurement, never part of a check.
+COV_DIR = os.environ.get("VERIF_COV_DIR")
+CLI_TARGET = Path(COV_DIR) / "cli" if COV_DIR else VERIF / "harness" / "target" / "cli"
 ANTHEM = CLI_TARGET / "debug" / "anthem"
 
 
 def build_cli():
     """cargo build of /repo's binary into the harness target dir; returns (ok, log)."""
     env = dict(os.environ, CARGO_NET_OFFLINE="true")
-    p = subprocess.run(["cargo", "build", "--offline", "--features", "verif", "--manifest-path", "/repo/Cargo.toml",
-                        "--target-dir", str(CLI_TARGET)], stdout=subprocess.PIPE, stderr=subprocess.STDOUT, text=True, env=env, timeout=3600)
+    cargo = ["cargo"]
+    if COV_DIR:
+        cargo = ["cargo", "+nightly"]
+        env["RUSTFLAGS"] = "-C instrument-coverage"
+        os.environ["LLVM_PROFILE_FILE"] = str(Path(COV_DIR) / "prof" / "cli-%p-%m.profraw")
+        env["LLVM_PROFILE_FILE"] = str(Path(COV_DIR) / "build-%p-%m.profraw")  # build scripts are instrumented too
+    p = subprocess.run(cargo + ["build", "--offline", "--features", "verif", "--manifest-path", "/repo/Cargo.toml",
+                                "--target-dir", str(CLI_TARGET)], stdout=subprocess.PIPE, stderr=subprocess.STDOUT, text=True, env=env, timeout=3600)
     return p.returncode == 0 and ANTHEM.exists(), p.stdout[-3000:]
 
 
@@ -130,7 +139,9 @@ def prover_exploration(runs, seed):
             env = dict(os.environ, PATH=str(bindir) + ":/usr/bin:/bin", FAKE_VAMPIRE_DIR=str(fdir), RUST_BACKTRACE="0")
             if late:
                 instances = rng.choice([2, 3, 4])
-            cmd = [str(ANTHEM), "verify", "--equivalence", "strong", "--decomposition", decomposition, "--direction", direction, "--no-timing",
+            # every sixth run prints the timings too (the verdict does not depend on them)
+            timed = (k % 6 == 4)
+            cmd = [str(ANTHEM), "verify", "--equivalence", "strong", "--decomposition", decomposition, "--direction", direction] + ([] if timed else ["--no-timing"]) + [
                    "-n", str(instances), "--save-problems", str(save)] + (["-t", "1"] if late else []) + [str(work / "left.lp"), str(work / "right.lp")]
             p = subprocess.run(cmd, stdout=subprocess.PIPE, stderr=subprocess.PIPE, env=env, timeout=300)
             out = p.stdout.decode("utf-8", "replace")
@@ -196,7 +207,7 @@ def seed_texts():
             except Exception:
                 pass
     texts["lp"] += ["p(X/2) :- q(X,I,J).\n{q(V+1)} :- p(V), not q(X).\n", ":- .\n", "", "% only a comment", "p(1..3).\n:- p(X), not not q(X), X != Q.\n",
-                    "p(V18446744073709551615).\n", "p(-9223372036854775808).\n"]
+                    "p(V18446744073709551615).\n", "p(-9223372036854775808).\n", "p(V18446744073709551615, V, V99999999999999999999) :- q(V0, V00).\n"]
     texts["spec"] += ["assumption: forall X (p(X) -> exists Y$i (Y$i > 0 and q(X, Y$i))).\nspec(forward)[s1]: p(a) <-> not not q.\n", "lemma: d(1).\ndefinition: forall X (d(X) <-> X = 1).\n",
                       "spec: forall X (Y = 3).\n", ""]
     texts["ug"] += ["input: p/1.\noutput: q/2.\ninput: n -> integer.\nassumption: forall X (p(X) -> X > n).\n", "input: p/99999999999999999999999.\n", ""]
@@ -272,9 +283,13 @@ def classify_known(text, stderr):
 
 
 def run_cli_case(cmd, work):
-    """one CLI run -> (outcome, stderr)"""
+    """one CLI run -> (outcome, stderr); a command that ends in ("<stdin", text) gets text on its standard input"""
+    stdin_text = b""
+    if cmd and isinstance(cmd[-1], tuple):
+        stdin_text = cmd[-1][1].encode()
+        cmd = cmd[:-1]
     try:
-        p = subprocess.run([str(ANTHEM)] + cmd, stdout=subprocess.PIPE, stderr=subprocess.PIPE, timeout=20, env=dict(os.environ, RUST_BACKTRACE="0"))
+        p = subprocess.run([str(ANTHEM)] + cmd, stdout=subprocess.PIPE, stderr=subprocess.PIPE, timeout=20, env=dict(os.environ, RUST_BACKTRACE="0"), input=stdin_text)
         err = p.stderr.decode("utf-8", "replace")
         if p.returncode == 0:
             return "ok", err
@@ -320,6 +335,84 @@ def edge_matrix(work):
             for c in cmds:
                 f.write_text(t)
                 yield c + [str(f)], t
+    # every output format of `parse`, input from a file and from standard input
+    for kind, what in (("lp", "program"), ("spec", "specification"), ("spec", "theory"), ("ug", "user-guide")):
+        for t in EDGE_TEXTS[kind][:6]:
+            f = work / f"edge.{kind}"
+            f.write_text(t)
+            yield ["parse", "--as", what, "--output", "debug", str(f)], t
+            yield ["parse", "--as", what, "--output", "default", ("<stdin", t)], t
+    for t in EDGE_TEXTS["lp"][:6]:
+        yield ["translate", "--with", "tau-star", ("<stdin", t)], t
+        yield ["analyze", "--property", "tightness", ("<stdin", t)], t
+    for t in EDGE_TEXTS["spec"][:4]:
+        yield ["simplify", "--portfolio", "classic", "--strategy", "fixpoint", ("<stdin", t)], t
+        yield ["translate", "--with", "completion", ("<stdin", t)], t
+    # command lines that cannot be served: each must end in an error message, not in a panic
+    miss = work / "edge_missing"
+    shutil.rmtree(miss, ignore_errors=True); miss.mkdir()
+    (miss / "a.lp").write_text("p(X) :- q(X).\n"); (miss / "b.lp").write_text("p(X) :- q(X), X = X.\n"); (miss / "c.lp").write_text("r.\n")
+    (miss / "g.ug").write_text("input: q/1.\noutput: p/1.\n"); (miss / "h.ug").write_text("input: q/1.\noutput: p/1.\n")
+    (miss / "s.spec").write_text("spec: forall X (p(X) <-> q(X)).\n"); (miss / "t.spec").write_text("spec: forall X (p(X) <-> q(X)).\n")
+    (miss / "o.po").write_text("lemma: forall X (p(X) -> q(X)).\n"); (miss / "o2.po").write_text("lemma: forall X (p(X) -> q(X)).\n")
+    (miss / "noext").write_text("p.\n"); (miss / "x.txt").write_text("p.\n")
+    (miss / "emptydir").mkdir(); (miss / "onlyug").mkdir(); (miss / "onlyug" / "g.ug").write_text("input: q/1.\noutput: p/1.\n")
+    (miss / "full").mkdir()
+    for n in ("a.lp", "b.lp", "g.ug"):
+        (miss / "full" / n).write_text((miss / n).read_text())
+    (miss / "afile").write_text("")
+    m = lambda n: str(miss / n)
+    nps = ["--no-proof-search"]
+    for eq in ("strong", "external"):
+        v = ["verify", "--equivalence", eq] + nps
+        for files in ([], [m("a.lp")], [m("a.lp"), m("b.lp"), m("c.lp")], [m("g.ug")], [m("a.lp"), m("g.ug")], [m("s.spec"), m("g.ug")], [m("s.spec"), m("a.lp")],
+                      [m("s.spec"), m("t.spec"), m("a.lp"), m("g.ug")], [m("a.lp"), m("b.lp"), m("g.ug"), m("h.ug")], [m("a.lp"), m("b.lp"), m("g.ug"), m("o.po"), m("o2.po")],
+                      [m("a.lp"), m("a.lp")], [m("a.lp"), m("a.lp"), m("g.ug")], [m("noext"), m("a.lp")], [m("x.txt"), m("a.lp"), m("g.ug")], [m("nonexistent.lp"), m("a.lp")],
+                      [m("emptydir")], [m("onlyug")], [m("full")], [m("full"), m("a.lp")], [m("nonexistent_dir")], [m("emptydir"), m("a.lp"), m("b.lp")],
+                      [m("s.spec"), m("a.lp"), m("g.ug"), m("o.po")], [m("o.po"), m("a.lp"), m("g.ug")], [str(miss)]):
+            yield v + files, " ".join(Path(x).name for x in files)
+        yield v + ["--save-problems", m("nonexistent_dir/deeper"), m("a.lp"), m("b.lp"), m("g.ug")], "save into a missing directory"
+        yield v + ["--save-problems", m("afile"), m("a.lp"), m("b.lp"), m("g.ug")], "save into a file"
+        yield v + ["--formula-representation", "mu", m("a.lp"), m("b.lp"), m("g.ug")], "mu"
+        yield v + ["--bypass-tightness", "--no-simplify", "--no-eq-break", m("a.lp"), m("b.lp"), m("g.ug")], "flags"
+    for c in (["translate", "--with", "tau-star", m("nonexistent.lp")], ["translate", "--with", "tau-star", m("emptydir")], ["parse", "--as", "program", m("emptydir")],
+              ["analyze", "--property", "tightness", m("nonexistent.lp")], ["simplify", "--portfolio", "classic", "--strategy", "fixpoint", m("emptydir")],
+              ["translate", "--with", "gamma", m("a.lp")], ["translate", "--with", "tau-star", m("s.spec")], ["translate", "--with", "natural", m("g.ug")]):
+        yield c, "unservable " + " ".join(c[:3])
+    # the correspondence corpus through the real command line: every program (translations, strong equivalence with
+    # its neighbour) and every external-equivalence task (problem construction only)
+    cdir = VERIF / "corpus"
+    progs = [l.strip() for l in (cdir / "programs.txt").read_text().splitlines() if l.strip() and not l.startswith("#")]
+    cout = work / "corpus_out"
+    for i, t in enumerate(progs):
+        f = work / "corpus_a.lp"
+        f.write_text(t + "\n")
+        for c in (["translate", "--with", "tau-star"], ["translate", "--with", "natural"], ["translate", "--with", "mu"]):
+            yield c + [str(f)], t
+        if i % 2 == 1:
+            g = work / "corpus_b.lp"
+            g.write_text(progs[i - 1] + "\n")
+            shutil.rmtree(cout, ignore_errors=True); cout.mkdir()
+            yield ["verify", "--equivalence", "strong", "--no-proof-search", "--save-problems", str(cout), str(g), str(f)], progs[i - 1] + "|" + t
+    for l in (cdir / "external.txt").read_text().splitlines():
+        parts = [x.strip() for x in l.split(";;")]
+        if len(parts) != 6 or l.startswith("#"):
+            continue
+        fl = parts[5].split()
+        if len(fl) != 4:
+            continue
+        for x in work.glob("cx_*"):
+            x.unlink()
+        kind, text = parts[1].split(":", 1)
+        fs = work / ("cx_a.lp" if kind.strip() == "prog" else "cx_a.spec")
+        fs.write_text(text.strip() + "\n")
+        (work / "cx_b.lp").write_text(parts[2] + "\n"); (work / "cx_c.ug").write_text(parts[3] + "\n")
+        files = [str(fs), str(work / "cx_b.lp"), str(work / "cx_c.ug")]
+        if parts[4]:
+            (work / "cx_d.po").write_text(parts[4] + "\n"); files.append(str(work / "cx_d.po"))
+        shutil.rmtree(cout, ignore_errors=True); cout.mkdir()
+        yield ["verify", "--equivalence", "external", "--no-proof-search", "--decomposition", fl[0], "--direction", fl[1], "--save-problems", str(cout)] + \
+              ([] if fl[2] == "true" else ["--no-simplify"]) + ([] if fl[3] == "true" else ["--no-eq-break"]) + files, "|".join(parts[1:5])
     out = work / "edge_out"
     for dec in ("independent", "sequential"):
         for dirn in ("universal", "forward", "backward"):
